@@ -297,7 +297,37 @@ var stAlts = []struct {
 }{{"less", stats.LocationLess}, {"two", stats.LocationDiffers}, {"greater", stats.LocationGreater}}
 
 func stFail(sig, conc string, want, got interface{}, format string, a ...interface{}) *Verdict {
-	return &Verdict{Signature: sig, Detail: fmt.Sprintf(format, a...), Want: want, Got: got, Concrete: conc}
+	return &Verdict{Signature: sig, Detail: fmt.Sprintf(format, a...), Want: stSan(want), Got: stSan(got), Concrete: conc}
+}
+
+// stSan makes a reported value fit for JSON: NaN and the infinities (which the code under
+// test may well return, and which are then exactly what has to be reported) become strings.
+func stSan(v interface{}) interface{} {
+	switch x := v.(type) {
+	case float64:
+		if math.IsNaN(x) || math.IsInf(x, 0) {
+			return fmt.Sprint(x)
+		}
+	case []float64:
+		out := make([]interface{}, len(x))
+		for i, e := range x {
+			out[i] = stSan(e)
+		}
+		return out
+	case []interface{}:
+		out := make([]interface{}, len(x))
+		for i, e := range x {
+			out[i] = stSan(e)
+		}
+		return out
+	case map[string]interface{}:
+		out := make(map[string]interface{}, len(x))
+		for k, e := range x {
+			out[k] = stSan(e)
+		}
+		return out
+	}
+	return v
 }
 
 // ---------------------------------------------------------------- t-test results
